@@ -398,3 +398,42 @@ def fsm_check(fx, info):
             if not ok and len(states) > 1:
                 problems.append(("trap", f"reset state {reset} not reachable from {s} [{ctxt}]"))
     return problems, nconf
+
+
+def _expand_locals(fx, f):
+    """Atoms that are Python locals FX kept symbolic (a named sub-condition) are replaced by the formula of their definition."""
+    mp = {}
+    for at in B.atoms(f):
+        d = getattr(fx, "localdefs", {}).get(at)
+        if d is not None:
+            try:
+                mp[at] = B.from_expr(fx.expand(d))
+            except Exception:
+                pass
+    return B.subst(f, mp) if mp else f
+
+
+def EQ(a, want):
+    """Effective guard of assignment/transition `a` is equivalent to `want`; tolerant of 1-bit comb-defined intermediates on either
+    side (both formulas are inlined with the same definitions before the second attempt)."""
+    f = a.eff()
+    if B.equivalent(f, want):
+        return True
+    fx = getattr(a, "fx", None)
+    if fx is None:
+        return False
+    inl = Inliner(fx, a)
+    fi, wi = _expand_locals(fx, inl.inline(f)), _expand_locals(fx, inl.inline(want))
+    return (fi != f or wi != want) and B.equivalent(fi, wi)
+
+
+def IMP(a, want):
+    f = a.eff()
+    if B.entails(f, want):
+        return True
+    fx = getattr(a, "fx", None)
+    if fx is None:
+        return False
+    inl = Inliner(fx, a)
+    fi, wi = _expand_locals(fx, inl.inline(f)), _expand_locals(fx, inl.inline(want))
+    return (fi != f or wi != want) and B.entails(fi, wi)
